@@ -117,9 +117,13 @@ TSrv == /\ St("srv")
         /\ emptyMsg' = IF Ev.k = "empty" THEN Put(emptyMsg, Ev.t, TRUE) ELSE emptyMsg
         /\ UNCHANGED <<active, disc, pend, inc, rt>>
 
+(* a driver observation with a retry delay of an hour: in the 1.5 s after a target's first failed attempt the manager *)
+(* makes no further attempt (it backs off - and the failure was seen, so it had not stopped before)               *)
+TBackoff == St("backoffwin") /\ Ev.failed /\ Ev.attempts = 0 /\ UNCHANGED <<active, disc, pend, inc, rt, cause, emptyMsg>>
+
 TFinal == St("final") /\ active = {} /\ (\A c \in DOMAIN pend : ~Busy(c)) /\ UNCHANGED <<active, disc, pend, inc, rt, cause, emptyMsg>>
 
-TNext == TReset \/ TCfg \/ TInv \/ TSwitch \/ TRet \/ TCb \/ TSrv \/ TFinal
+TNext == TReset \/ TCfg \/ TBackoff \/ TInv \/ TSwitch \/ TRet \/ TCb \/ TSrv \/ TFinal
 TSpec == TInit /\ [][TNext]_tvars
 
 Track == IF l > TLCGet(1) THEN TLCSet(1, l) ELSE TRUE
